@@ -128,7 +128,9 @@ def project_sig(P, hist):
     modlevel = any(m['imports'] for m in P['mods'])
     unq = any(not im['only'] for h in P['procs'] + P['mods'] for im in h['imports'])
     ks = {o['k'] for o in hist if o['k']}
-    sib = any(p['mod'] and q['mod'] == p['mod'] and p['name'] in ks and p['name'] in q['calls'] and q['name'] != p['name']
+    subs = {o['k'] for o in hist if o['k'] and o['sub']}
+    sib = any(p['mod'] and q['mod'] == p['mod'] and q['name'] != p['name'] and
+              ((p['name'] in ks and p['name'] in q['calls']) or (p['name'] in subs and q['name'] in p['calls']))
               for p in P['procs'] for q in P['procs'])
     kmod = any(p['name'] in ks and p['mod'] for p in P['procs'])
     mvars = {v for m in P['mods'] for v in m['vars']}
@@ -193,7 +195,7 @@ def run(ctx):
         add(L.normalize_project(c['P']), L.normalize_config(c['C']), c['hist'], c['iface'], 'replay', c.get('modelled', False), c.get('layout'), c.get('mvi', False))
     else:
         # ---- 2. TLC-sampled members of the modelled universe (preconditions hold): histories <= 3
-        for c in gen_tlc_cases(ctx, 32 if quick else 300, 3):
+        for c in gen_tlc_cases(ctx, 32 if quick else 220, 3):
             if time.time() > budget and len(runs) >= 20:
                 break
             P, C = L.normalize_project(c['P']), L.normalize_config(c['C'])
@@ -201,7 +203,7 @@ def run(ctx):
         ntlc = len(runs)
         # ---- 3. seeded larger projects (several units per file, module-level imports, siblings): no preconditions
         budget += 40 if quick else 240
-        legal, yield_ = L.seeded_pairs(ctx, 24 if quick else 250)
+        legal, yield_ = L.seeded_pairs(ctx, 24 if quick else 150)
         ctx.cover['seeded_candidates_legal'] = yield_
         for i, (P, _) in enumerate(legal):
             if time.time() > budget and len(runs) - ntlc >= 15:
